@@ -51,7 +51,8 @@ class SocketConnectionDispatcher(YowConnectionDispatcher):
 
     def sendData(self, data):
         try:
-            self.socket.send(data)
+            # send() may take only part of the data when the send buffer is short of room
+            self.socket.sendall(data)
         except socket.error as e:
             logger.error(e)
             self.disconnect()
